@@ -191,7 +191,7 @@ pub fn style_desc<C: Col>(s: &PrimitiveStyle<C>) -> String {
 }
 
 pub fn corner_radii(d: &mut Dec, max: u32) -> CornerRadii {
-    if d.ratio(1, 3) {
+    let r = if d.ratio(1, 3) {
         CornerRadii::new(size(d, max))
     } else {
         CornerRadii {
@@ -199,6 +199,33 @@ pub fn corner_radii(d: &mut Dec, max: u32) -> CornerRadii {
             top_right: size(d, max),
             bottom_right: size(d, max),
             bottom_left: size(d, max),
+        }
+    };
+    // auxiliary word 5: half of the cases correlate the corners the way a UI does (tabs, pills), through
+    // the `CornerRadiiBuilder` routes or with shared heights / widths
+    use embedded_graphics::primitives::CornerRadiiBuilder;
+    match d.aux_u(5, 0, 7) {
+        0..=3 => r,
+        4 => CornerRadiiBuilder::new().left(r.top_left).right(r.top_right).build(),
+        5 => CornerRadiiBuilder::new().top(r.top_left).bottom(r.bottom_right).build(),
+        6 => {
+            let h = r.top_left.height;
+            CornerRadii {
+                top_left: Size::new(r.top_left.width, h),
+                top_right: Size::new(r.top_right.width, h),
+                bottom_right: Size::new(r.bottom_right.width, h),
+                bottom_left: Size::new(r.bottom_left.width, h),
+            }
+        }
+        _ => {
+            let w = r.top_left.width;
+            CornerRadiiBuilder::from(&CornerRadii {
+                top_left: Size::new(w, r.top_left.height),
+                top_right: Size::new(w, r.top_right.height),
+                bottom_right: Size::new(w, r.bottom_right.height),
+                bottom_left: Size::new(w, r.bottom_left.height),
+            })
+            .build()
         }
     }
 }
